@@ -142,9 +142,24 @@ def gen_plan(rng, cfg, tier):
       f, pool = rng.choice(cands)
       nm = rng.choice(pool)
       pre = [['advance', f * rng.choice([0.5, 0.5, 0.3, 0.7])]]
-      for k in range(rng.randint(mx + 2, mx + 5), 0, -1):
-        pre.append(['dp', nm, -float(k * f), 'int', float(k)])
-      pre.append(['advance', f * (mx + rng.choice([1.6, 1.6, 0.6, 2.6]))])
+      ks = list(range(rng.randint(mx + 2, mx + 5), rng.choice([0, -1]), -1))
+      r = rng.random()
+      if r < 0.3:
+        ks.reverse()              # newest first, the backlog afterwards
+      elif r < 0.5:
+        rng.shuffle(ks)
+      for k in ks:
+        pre.append(['dp', nm, -float(k * f), 'int', float(k + 1)])
+      if rng.random() < 0.4:
+        # after the flush that trims the surplus, more data for a recent interval
+        pre.append(['advance', float(f)])
+        for k in rng.sample([0, 1, 2], rng.randint(1, 2)):
+          pre.append(['dp', nm, -float((k + 1) * f), 'int', 9.0 + k])
+        pre.append(['advance', float(f)])
+        rest = mx + rng.choice([-0.4, -0.4, 0.6])
+      else:
+        rest = mx + rng.choice([1.6, 1.6, 0.6, 2.6])
+      pre.append(['advance', f * max(rest, 0.1)])
       pre.append(['dp', nm, 0.0, 'int', 5.0])
       pre.append(['advance', f * rng.choice([0.5, 0.5, 0.3])])
       pre.append(['dp', rng.choice(pool), 0.0, 'int', 7.0])
